@@ -69,16 +69,17 @@ Proof.
 Qed.
 
 (* ---------- independence of the interleaving ---------- *)
-(* which node points of a history are accepted does not depend on the state: only NaN is refused *)
+(* which node points of a history are accepted does not depend on the state: only what the store cannot
+   represent (a value that is not a number, a time outside the int64 nanosecond range) is refused *)
 Definition node_pts_of (o : op) (id : bytes) : list point :=
   match o with
-  | NodePts i pts => if negb (has_nan pts) && bytes_eqb i id then pts else []
+  | NodePts i pts => if negb (has_nan pts || bad_times pts) && bytes_eqb i id then pts else []
   | EdgePts _ _ _ => []
   end.
 
-Lemma node_reply st i pts : reply_of (handle st (NodePts i pts)) = if has_nan pts then 1%N else 0%N.
+Lemma node_reply st i pts : reply_of (handle st (NodePts i pts)) = if has_nan pts || bad_times pts then 1%N else 0%N.
 Proof.
-  cbn [handle]. unfold node_points. destruct (has_nan pts); [reflexivity|].
+  cbn [handle]. unfold node_points. destruct (has_nan pts); [reflexivity|]. destruct (bad_times pts); [reflexivity|].
   destruct (merge_batch false _ _). reflexivity.
 Qed.
 
@@ -87,7 +88,7 @@ Lemma accepted_node_flat ops : forall st id,
 Proof.
   induction ops as [|o ops IH]; intros st id; cbn [accepted_node flat_map]; [reflexivity|].
   rewrite IH. f_equal. destruct o as [i pts|i par pts]; [|reflexivity].
-  cbn [node_pts_of]. rewrite node_reply. destruct (has_nan pts); reflexivity.
+  cbn [node_pts_of]. rewrite node_reply. destruct (has_nan pts), (bad_times pts); reflexivity.
 Qed.
 
 Lemma flat_map_perm {A B} (f : A -> list B) l l' : Permutation l l' -> Permutation (flat_map f l) (flat_map f l').
